@@ -7,6 +7,8 @@ model's restart outcomes; equivalent_layers is run on every enumerated profile a
 statement's conservation laws are evaluated on the real outputs."""
 import warnings
 
+import itertools
+
 import numpy as np
 
 from harness import core
@@ -141,6 +143,13 @@ def check_el(pc, c):
             if b2:
                 bad.append((b2[0][0] + ":" + nm, b2[0][1]))
                 break
+    if not bad:
+        # the same profile in physical units (Cn2 dh of 1e-13 ... 1e-20 m^(1/3)): the laws are homogeneous in the strengths
+        for sc_ in (1e-13, 1e-17, 1e-20, 1e6):
+            b2 = laws_el(h, p * sc_, c["L"], pc.equivalent_layers(h.copy(), p * sc_, c["L"], w=w.copy()), w=w)
+            if b2:
+                bad.append((b2[0][0] + ":strength-scale", dict(b2[0][1], scale=sc_)))
+                break
     drift = []
     if not bad and not c["onedge"]:
         got = np.asarray(pc.equivalent_layers(h.copy(), p.copy(), c["L"])[1], float)
@@ -188,6 +197,36 @@ def check_gctm(pc, rng):
             if rel > 5e-2:
                 bad.append(("GCTM:moment-%d-not-reproduced" % k, dict(N=N, L=L, lowest_layer=h0, rel=float(rel))))
                 break
+    # realistic profiles (20-40 irregular layers, L = 3..5): every one of the 2L-1 moments within 5e-2 unless even the
+    # equivalent-layers starting guess of the optimiser is that far off (the unchanged code stays below 2e-2 on such profiles)
+    def momerr(hx, cx, L_):
+        return max(abs((cx * (hx / 1e4) ** k).sum() - (p * (h / 1e4) ** k).sum()) / (p * (h / 1e4) ** k).sum() for k in range(2 * L_ - 1))
+    for t in range(getattr(check_gctm, "n_random", 24)):
+        N, L = int(rng.integers(20, 41)), int(rng.integers(3, 7))
+        kind = t % 4
+        h = np.linspace(0, 20000.0, N) if kind == 0 else np.sort(rng.uniform(0, 1, N) ** kind * 20000.0)
+        h[0] = 0.0
+        p = rng.uniform(0.01, 1.0, N) ** 3 * (1e-13 if t % 2 else 1e-14)
+        out = pc.GCTM(h.copy(), p.copy(), L)
+        hh, cc = np.asarray(out[0], float), np.asarray(out[1], float)
+        n += 1
+        if hh.shape != (L,) or cc.shape != (L,) or np.any(cc < 0) or np.any(hh < 0) or not np.all(np.isfinite(hh)) or not np.all(np.isfinite(cc)):
+            bad.append(("GCTM:exactly-L-non-negative:irregular-profile", dict(N=N, L=L)))
+            break
+        g = pc.equivalent_layers(h.copy(), p.copy(), L)
+        e_out, e_start = momerr(hh, cc, L), momerr(np.asarray(g[0], float), np.asarray(g[1], float), L)
+        worst = max(worst, min(e_out, e_start))
+        # the layers are (height, strength) PAIRS: no other assignment of the returned strengths to the returned heights may
+        # reproduce the moments much better than the one returned
+        if e_out > 1e-2:
+            e_best = min(momerr(hh, cc[list(pm)], L) for pm in itertools.permutations(range(L)))
+            if e_best < e_out / 3:
+                bad.append(("GCTM:strengths-attached-to-wrong-heights", dict(N=N, L=L, rel_as_returned=float(e_out), rel_best_assignment=float(e_best),
+                                                                             h=hh.tolist(), cn2=cc.tolist())))
+                break
+        if e_out > 5e-2 and e_out > e_start:
+            bad.append(("GCTM:moments-worse-than-starting-guess", dict(N=N, L=L, rel_out=float(e_out), rel_start=float(e_start), h=hh.tolist(), cn2=cc.tolist())))
+            break
     check_gctm.worst = worst
     return bad, n
 
@@ -273,6 +312,7 @@ def run(run):
                     run.drift("optimal_grouping:global-seed-result", dict(seed=1000 + s))
                 if key not in table:
                     run.drift("optimal_grouping:restart-outcome-outside-model", dict(drawn=drawn))
+            check_gctm.n_random = 80 if run.tier == "quick" else 800
             bad, ng = check_gctm(pc, rng)
             for key, detail in bad:
                 run.violation(key, detail, dict(kind="gctm"))
